@@ -137,7 +137,8 @@ def gen_cases(rng, tier):
     if wrap == 1:
       node = {"k": "sum", "a": [node, spec.gen_form(rng, rmax=1.0)]}
     elif wrap == 2:
-      node = {"k": "pow", "a": [{"k": "sum", "a": [node, {"k": "form", "name": "constant", "p": [3.0]}]}, {"k": "form", "name": "constant", "p": [2.0]}]}
+      # the zero sits in the EXPONENT (the base of pow() must stay positive: its derivative uses log(base))
+      node = {"k": "pow", "a": [spec.gen_form(rng, positive=True), {"k": "product", "a": [node, {"k": "form", "name": "constant", "p": [0.001]}]}]}
     route = "potable" if i % 3 == 0 else "api"
     cases.append({"kind": "tree", "route": route, "node": node, "forms": [], "tables": [], "rs": sorted(set([r0, r0 + 0.25, r0 * 0.5])), "zero_factor": rv})
   # pow() with small whole-number exponents given as int and as float (0, 1, 2, 3, -1): the degenerate cases of the
